@@ -10,5 +10,6 @@ CONSTANTS
   PerIns = 1
   PerFl = 1
   LockScope = "code"
+  SigMode = "none"
 VIEW View
 INVARIANTS AllPersistedOnce
